@@ -1036,14 +1036,32 @@ func (w *w1World) checkCommands(cl *w1SimClient) {
 	// unsolicited pong
 	pingsSeen := 0
 	fi := 0
+	// a ping counts from the moment the server queued it; with a write delay (and a
+	// stalled writer goroutine) it reaches the transport later. A pong that the observer
+	// sent "too early" is solicited if such a ping shows up within that delay.
+	queueLag := time.Duration(w.sc.Cfg.WriteDelayUs)*time.Microsecond + time.Millisecond
+	if s.Stalls > 0 {
+		queueLag += 1300 * time.Millisecond // the writer goroutine itself may have been held back
+	}
+	consumed := map[int]bool{}
 	for _, c := range cl.cmds {
 		for fi < len(cl.frames) && cl.frames[fi].Seq < c.Seq {
-			if cl.frames[fi].Kind == "ping" {
+			if cl.frames[fi].Kind == "ping" && !consumed[fi] {
 				pingsSeen++
 			}
 			fi++
 		}
 		if c.Kind == "pong" && firstConnectOK != 0 && c.Seq > firstConnectOK {
+			if pingsSeen == 0 && c.Returned && c.Proceed {
+				for k := fi; k < len(cl.frames) && cl.frames[k].At <= c.At+queueLag; k++ {
+					if cl.frames[k].Kind == "ping" && !consumed[k] {
+						consumed[k] = true
+						pingsSeen++
+						s.Probe("c09_pong_for_ping_still_in_write_queue")
+						break
+					}
+				}
+			}
 			if pingsSeen == 0 && c.Returned && c.Proceed {
 				s.Violate("C09", "unsolicited-pong-accepted", "pong without ping accepted", "client %d: a pong without any preceding ping was accepted", cl.idx)
 			}
